@@ -1854,9 +1854,9 @@ func (c *Ctx) label() byte {
 	for {
 		b := byte(c.rng.Intn(256))
 		if c.rng.Intn(2) == 0 {
-			b = "ACGTNRXZ*"[c.rng.Intn(9)]
+			b = "ACGTNRXZ*#"[c.rng.Intn(10)]
 		}
-		if b == ' ' || b == '\t' || b == '\n' || b == '\r' || b == '\f' || b == '#' || b == 255 || b >= 0x80 {
+		if b == ' ' || b == '\t' || b == '\n' || b == '\r' || b == '\f' || b == 255 || b >= 0x80 {
 			continue
 		}
 		return b
@@ -1922,7 +1922,7 @@ func (c *Ctx) ncbiText(t ncbiTable) []byte {
 		}
 	}
 	junk()
-	b.WriteString(c.ws(false))
+	b.WriteString(c.ws(t.cols[0] == '#')) // a line whose first byte is '#' is a comment: a '#' label first on a line is indented
 	for i, x := range t.cols {
 		if i > 0 {
 			b.WriteString(c.ws(true))
@@ -1932,7 +1932,7 @@ func (c *Ctx) ncbiText(t ncbiTable) []byte {
 	b.WriteString(c.ws(false) + eol())
 	for i, r := range t.rows {
 		junk()
-		b.WriteString(c.ws(false))
+		b.WriteString(c.ws(r == '#'))
 		b.WriteByte(r)
 		for _, v := range t.vals[i] {
 			b.WriteString(c.ws(true) + quarterText(v))
@@ -2102,6 +2102,9 @@ func genC20(c *Ctx) {
 				toks[0] = toks[0] + "Q"
 			}
 			mod[ri] = strings.Join(toks, " ")
+			if strings.HasPrefix(mod[ri], "#") {
+				mod[ri] = " " + mod[ri] // keep the row a data row ('#' in the first column starts a comment)
+			}
 			txt := []byte(strings.Join(mod, "\n"))
 			got := safe(func() string { return ncbiS(smtext.ReadNCBI(bytes.NewReader(txt))) })
 			oracle := ""
@@ -2223,13 +2226,16 @@ func genC20(c *Ctx) {
 func (c *Ctx) ncbiTextPlain(t ncbiTable) []byte {
 	var b strings.Builder
 	for i, x := range t.cols {
-		if i > 0 {
+		if i > 0 || x == '#' {
 			b.WriteByte(' ')
 		}
 		b.WriteByte(x)
 	}
 	b.WriteByte('\n')
 	for i, r := range t.rows {
+		if r == '#' {
+			b.WriteByte(' ')
+		}
 		b.WriteByte(r)
 		for _, v := range t.vals[i] {
 			b.WriteString(" " + quarterText(v))
